@@ -215,9 +215,9 @@ check("C07",
       "files) are written, read by loads_mol2 and loads_all_mol2 / ConformerEnsemble.loads_mol2, written and read again; every "
       "recorded step is validated by TLC against Mol2TextTrace, which accepts a step only if name, atom order, elements, "
       "non-empty labels, coordinates (1e-6 A), charges (1e-3 e), bonds with endpoints and expressible types, conformer "
-      "count/order, acceptance of every emitted token, text fixed point and read stability all hold.  History independence: unrelated public-API calls (re-typing already typed atoms with the same tokens, reading and writing other texts) are stuttering steps of the spec and a second read of the same text must equal the first (RereadSame); round trips run in fresh worker processes in shuffled order.",
+      "count/order, acceptance of every emitted token, text fixed point and read stability all hold.  History independence: unrelated public-API calls (re-typing already typed atoms with the same tokens, reading and writing other texts) are stuttering steps of the spec and a second read of the same text must equal the first (RereadSame); round trips run in fresh worker processes in shuffled order.  Bond lists may hold two bonds over one atom pair (same or reversed direction, same or different types); charges include values that round to zero from below.",
       "typing exhaustive on model and code; structures exhaustive on the model within the bounds and sampled on the code; scope: "
-      "whitespace-free labels, one-line names, finite |x| < 1e5 A, one bond per pair, >=1 conformer; bond endpoints compared as "
+      "whitespace-free labels, one-line names, finite |x| < 1e5 A, at most two bonds per atom pair, >=1 conformer; bond endpoints compared as "
       "an unordered pair; '-0.000' equals '0.000'; trusted: TLC, the Json module, the harness's mol2 tokenizer",
       "TLA+ spec (Mol2Text) model-checked with TLC incl. exhaustive typing table; TLC-generated inputs; batched TLC trace "
       "validation of real dumps/loads executions; built-in trace-mutation self-test",
@@ -277,7 +277,10 @@ check("C15",
       "patterns <=3.  Then the real queries run on real Connectivity/Structure/Molecule/ConformerEnsemble objects for EVERY "
       "labelled graph with <=5/<=6 atoms (every start, direction, bond, atom), every target <=4/<=5 x small connected patterns, "
       "and random graphs up to 40 atoms with random elements, bond types, bond order and cut-out patterns; every single yield, "
-      "ring flag, listing and mapping list is validated by TLC against GraphQTrace.",
+      "ring flag, listing and mapping list is validated by TLC against GraphQTrace.  Edit histories run over several handles on ONE "
+      "graph (the ensemble, two held Conformer views, the live bond list) with edits and queries interleaved across handles; attributes "
+      "the property does not name (atom type, geometry, formal charge / spin, attrib; on targets also isotope, stereo, bond label / order) "
+      "are varied independently in pattern and target and must not decide a match.",
       "simple graphs only; directed distance = shortest path through the chosen neighbour avoiding the start; Unknown = wildcard "
       "in patterns only; with mixed bond types only validity of returned maps and presence of the cut-out position are demanded "
       "(the code filters by bond type, which the property does not describe); matcher bond types limited to "
